@@ -279,6 +279,22 @@ def _oracle(w, drv, sc, t_end, stats, out):
         # a version replaced less than 1.5 s before the lookup started may still be the advertised one at this host
         # (link delay plus the one-second grace of cache-flush)
         vers = [v for v in history.get(n, []) if v[0] <= t_b and (v[1] is None or v[1] >= t_a - 1.5)]
+        # RFC 6762 10.2: a cache-flush record retires only copies received more than 1 s earlier. When the owner sent the
+        # previous version less than ~1.3 s before (or, through delay/duplication, after) the update, both generations
+        # stay cached at the receiver until the old TTL runs out, and either may be reported.
+        from sim.svc import SvcRecords as _SR
+
+        for k in range(len(history.get(n, [])) - 1):
+            vo = history[n][k]
+            if vo in vers or vo[1] is None:
+                continue
+            old_srv = _SR(vo[2]).srv.ident()
+            t_u = vo[1]
+            if any(tx.t >= t_u - 1.3 and tx.msg is not None and tx.msg.is_response and
+                   any(r.ident() == old_srv and r.ttl > 0 for r in tx.msg.records())
+                   for tx in w.net.trace if tx.host == reg_host(history, n)):
+                if t_a <= t_u + _SR(vo[2]).host_ttl:
+                    vers.append(vo)
         # registered (in some version) without a gap for the whole lookup window?
         cover = t_a
         whole = False
@@ -325,6 +341,10 @@ def _oracle(w, drv, sc, t_end, stats, out):
         if not ok:
             out.add("C07.lookup-wrong", f"lookup of {lk['name']} on {lk['host']} resolved {got}, registered versions in that "
                     f"window: {[(SvcRecords(v[2]).srv.rdata, SvcRecords(v[2]).txt.rdata, v[2]['addrs']) for v in vers]}")
+
+
+def reg_host(history, n):
+    return "H" + history[n][-1][2]["server"].split(".")[0].replace("host", "")
 
 
 def svc_type(svc):
